@@ -15,6 +15,7 @@ Prop == IOEnv.PROP
 
 V(r) == CASE Prop = "C15" -> VerdictC15(r.q, r)
           [] Prop = "C02" -> VerdictC02s(r.q, r)
+          [] Prop = "C07" -> VerdictC07s(r.q.lang, r.q, r)
 
 Proj(s) == [hn |-> HasNumber(s.parser), dec |-> s.parser.isdec, ip |-> Render(s.parser.int), ifz |-> s.parser.int.frozen,
             iord |-> IsOrdinal(s.parser.int), dp |-> Render(s.parser.dec), ms |-> s.tracker.ms, me |-> s.tracker.me,
